@@ -9,7 +9,7 @@
      (g2) `self` / <globals> rows whose ONLY evidence is a callee resolved by name ("via:"): state reachable from the object or the
           module changed by some method of that name (the PAV coefficient cache, the Borda scorer - Props/C18.v proves those
           history-free; everything else about "no state carried between calls" is the history oracle of the sweep);
-     (x)  the explicit list below, each entry with its reason; `direct = false` entries admit only "via:" evidence, so a statement
+     (x)  the explicit list below, each entry with its reason; `direct = false` entries allow only "via:" evidence, so a statement
           that changes the argument IN the listed function itself still breaks the table.
    What the table means for the store model of Props/C18.v is at the end (scan_untouched_args_untouched). *)
 From Coq Require Import ZArith List String Bool Arith Lia.
@@ -23,7 +23,7 @@ Definition ends_with (suf s : string) : bool :=
 
 Definition is_via (k : string) : bool := prefix "via:" k.
 
-(* (module, qualified name, parameter, direct mutation admitted?, reason) *)
+(* (module, qualified name, parameter, direct mutation allowed?, reason) *)
 Definition exceptions : list (string * string * string * bool * string) := [
   ("votelib", "VotingSystem.evaluate", "args", false, "by-name call resolution cannot exclude that a method of that name changes this argument; evidence = argument snapshots of the dynamic sweep");
   ("votelib", "VotingSystem.evaluate", "kwargs", false, "by-name call resolution cannot exclude that a method of that name changes this argument; evidence = argument snapshots of the dynamic sweep");
